@@ -19,6 +19,9 @@ def run(chk):
     # R1: the slot-world behaviours with focus on association (gate at the idle boundary, duplicates on one slot)
     from checks import tracker_common as tc
     for name, kw in (("r1-d3-idle1", dict(depth=3, MaxIdle=1, MaxDets=2, Confs={900, 500}, Slots={1})),
+                     # confidence floor: a detection below the minimal confidence is weighed with the minimal confidence
+                     ("r1-d3-minconf", dict(depth=3, MaxIdle=1, MaxDets=2, Confs={900, 20}, MinConf=400, Slots={1}, Scenes={1})),
+                     ("r1-d3-lowconf", dict(depth=3, MaxIdle=1, MaxDets=1, Confs={900, 200}, MinConf=50, Slots={1}, Scenes={1})),
                      ("r1-d4-idle2-maha", dict(depth=4, MaxIdle=2, Metric="maha", Thr=1000, MaxDets=1, Confs={900}, Slots={1}, Scenes={1}))):
         r, c = tc.generate(chk, name, **kw)
         for kind in (("sort",) if quick else ("sort", "batchsort", "visual")):
